@@ -5,15 +5,19 @@
 //	mode c14: the same histories plus collection runs on a store opened over the fault-enumerating
 //	          storage driver (internal/crashdb); after every operation the store is rebuilt from
 //	          every strict prefix of the operation's storage writes and reopened (C14).
+//	          A put with "size":"full" carries full-size chunks (8-byte span + 256 KiB); its chunks are named
+//	          "K1", "K2", ... (one call of 80 of them hands 20 MiB to a single storage batch).
 //
 // No oracle: results and index dumps are logged; LSCoreTrace.tla judges.
 package main
 
 import (
 	"context"
+	"encoding/binary"
 	"errors"
 	"fmt"
 	"io/ioutil"
+	"bytes"
 	"math/rand"
 	"sync/atomic"
 
@@ -31,14 +35,67 @@ import (
 var clock int64 = 5000
 
 type world struct {
-	addr map[string]boson.Address // "A","B","R"
-	name map[string]string        // hex -> name
-	base []byte
+	seed  int64
+	addr  map[string]boson.Address // "A","B","R", and the bulk names "K1", ... as scenarios mention them
+	name  map[string]string        // hex -> name
+	base  []byte
+	names []string          // addresses of the running scenario (projection of the dumps)
+	full  map[string][]byte // full-size payloads by name/variant (supplied bytes; compared for equality only)
+}
+
+var baseNames = []string{"A", "B", "C", "R"}
+
+const fullSize = 256 * 1024 // boson.ChunkSize
+
+// addrOf returns the address of a chunk name; bulk names get a reproducible address of their own on first use.
+func (w *world) addrOf(n string) boson.Address {
+	if a, ok := w.addr[n]; ok {
+		return a
+	}
+	h := int64(0)
+	for _, c := range n {
+		h = h*131 + int64(c)
+	}
+	for salt := int64(0); ; salt++ {
+		r := rand.New(rand.NewSource(w.seed*7919 + h*104729 + salt))
+		b := make([]byte, 32)
+		r.Read(b)
+		a := boson.NewAddress(b)
+		if _, dup := w.name[a.String()]; dup {
+			continue
+		}
+		w.addr[n] = a
+		w.name[a.String()] = n
+		return a
+	}
+}
+
+// fullPayload is the full-size payload (span + 256 KiB) of a name/variant, distinct per name.
+func (w *world) fullPayload(name string, variant int) []byte {
+	k := fmt.Sprintf("%s/%d", name, variant)
+	if d, ok := w.full[k]; ok {
+		return d
+	}
+	h := uint32(2166136261)
+	for _, c := range k {
+		h = (h ^ uint32(c)) * 16777619
+	}
+	d := make([]byte, 8+fullSize)
+	binary.LittleEndian.PutUint64(d[:8], fullSize)
+	x := h | 1
+	for i := 8; i < len(d); i++ {
+		x ^= x << 13
+		x ^= x >> 17
+		x ^= x << 5
+		d[i] = byte(x)
+	}
+	w.full[k] = d
+	return d
 }
 
 func newWorld(seed int64) *world {
 	r := rand.New(rand.NewSource(seed*977 + 3))
-	w := &world{addr: map[string]boson.Address{}, name: map[string]string{}}
+	w := &world{seed: seed, addr: map[string]boson.Address{}, name: map[string]string{}, full: map[string][]byte{}, names: baseNames}
 	for _, n := range []string{"A", "B", "R", "C"} {
 		b := make([]byte, 32)
 		r.Read(b)
@@ -59,8 +116,14 @@ func payload(name string, variant int) []byte {
 	return d
 }
 
-func variantOf(name string, data []byte) int {
+func (w *world) variantOf(name string, data []byte) int {
 	for v := 1; v <= 2; v++ {
+		if len(data) == 8+fullSize {
+			if name != "?" && bytes.Equal(w.fullPayload(name, v), data) {
+				return v
+			}
+			continue
+		}
 		if string(payload(name, v)) == string(data) {
 			return v
 		}
@@ -72,7 +135,7 @@ func (w *world) ctx(root string) context.Context {
 	if root == "-" || root == "" {
 		return context.Background()
 	}
-	return sctx.SetRootHash(context.Background(), w.addr[root])
+	return sctx.SetRootHash(context.Background(), w.addrOf(root))
 }
 
 func putMode(s string) storage.ModePut {
@@ -142,11 +205,32 @@ func (c *ciStub) DelFile(root boson.Address, del func() error) error {
 	return nil
 }
 
-func chunkOf(w *world, pair interface{}) (string, int, boson.Chunk) {
+func chunkOf(w *world, pair interface{}, full bool) (string, int, boson.Chunk) {
 	l := pair.([]interface{})
 	n := l[0].(string)
 	v := int(l[1].(float64))
-	return n, v, boson.NewChunk(w.addr[n], payload(n, v))
+	if full {
+		return n, v, boson.NewChunk(w.addrOf(n), w.fullPayload(n, v))
+	}
+	return n, v, boson.NewChunk(w.addrOf(n), payload(n, v))
+}
+
+// scenarioNames lists the addresses a scenario talks about: the fixed ones plus the bulk names of its puts.
+func scenarioNames(sc kit.Scenario) []string {
+	names := append([]string(nil), baseNames...)
+	seen := map[string]bool{"A": true, "B": true, "C": true, "R": true}
+	for _, op := range sc.Ops {
+		if kit.Str(op, "op") != "put" {
+			continue
+		}
+		for _, p := range kit.List(op, "chs") {
+			if n := p.([]interface{})[0].(string); !seen[n] {
+				seen[n] = true
+				names = append(names, n)
+			}
+		}
+	}
+	return names
 }
 
 // dump projects a store: per address [variant, binID, storeTs, pin]; gc entries; counters.
@@ -156,7 +240,7 @@ func dump(w *world, db *localstore.DB) (kit.Ev, error) {
 		return nil, err
 	}
 	per := map[string]interface{}{}
-	for _, n := range []string{"A", "B", "C", "R"} {
+	for _, n := range w.names {
 		per[n] = []interface{}{0, 0, 0, 0}
 	}
 	data := [][]interface{}{}
@@ -165,7 +249,7 @@ func dump(w *world, db *localstore.DB) (kit.Ev, error) {
 		if !ok {
 			n = "?"
 		}
-		v := variantOf(n, e.Data)
+		v := w.variantOf(n, e.Data)
 		data = append(data, []interface{}{n, v})
 		if ok {
 			t := per[n].([]interface{})
@@ -190,7 +274,7 @@ func dump(w *world, db *localstore.DB) (kit.Ev, error) {
 		byRoot[n] += int(e.GCounter)
 	}
 	roots := [][]interface{}{}
-	for _, n := range []string{"A", "B", "C", "R"} {
+	for _, n := range w.names {
 		if byRoot[n] > 0 {
 			roots = append(roots, []interface{}{n, byRoot[n]})
 		}
@@ -243,8 +327,12 @@ func apply(w *world, s *store, op map[string]interface{}, ev kit.Ev, split bool)
 		var chs []boson.Chunk
 		var names []string
 		echo := []interface{}{}
+		full := kit.Str(op, "size") == "full"
+		if full {
+			ev["size"] = "full"
+		}
 		for _, p := range kit.List(op, "chs") {
-			n, v, c := chunkOf(w, p)
+			n, v, c := chunkOf(w, p, full)
 			chs = append(chs, c)
 			names = append(names, n)
 			echo = append(echo, []interface{}{n, v})
@@ -269,23 +357,23 @@ func apply(w *world, s *store, op map[string]interface{}, ev kit.Ev, split bool)
 		}
 		ev["exist"], ev["err"] = exist, errClass(err)
 		if err == nil && (mode == "request" || mode == "requestpin") && root != "-" {
-			r := w.addr[root].String()
+			r := w.addrOf(root).String()
 			for i, n := range names {
 				if i < len(exist) && !exist[i] {
 					if s.ci.files[r] == nil {
 						s.ci.files[r] = map[string]bool{}
 					}
-					s.ci.files[r][w.addr[n].String()] = true
+					s.ci.files[r][w.addrOf(n).String()] = true
 				}
 			}
 		}
 	case "get":
 		a := kit.Str(op, "a")
 		ev["mode"], ev["a"] = kit.Str(op, "mode"), a
-		c, err := s.db.Get(ctxb, getMode(kit.Str(op, "mode")), w.addr[a])
+		c, err := s.db.Get(ctxb, getMode(kit.Str(op, "mode")), w.addrOf(a))
 		ev["found"], ev["v"], ev["err"] = false, 0, ""
 		if err == nil {
-			ev["found"], ev["v"] = true, variantOf(a, c.Data())
+			ev["found"], ev["v"] = true, w.variantOf(a, c.Data())
 		} else if !errors.Is(err, storage.ErrNotFound) {
 			ev["err"] = errClass(err)
 		}
@@ -294,12 +382,12 @@ func apply(w *world, s *store, op map[string]interface{}, ev kit.Ev, split bool)
 		ev["mode"], ev["as"] = kit.Str(op, "mode"), as
 		var addrs []boson.Address
 		for _, a := range as {
-			addrs = append(addrs, w.addr[a])
+			addrs = append(addrs, w.addrOf(a))
 		}
 		cs, err := s.db.GetMulti(ctxb, getMode(kit.Str(op, "mode")), addrs...)
 		vs := []int{}
 		for i, c := range cs {
-			vs = append(vs, variantOf(as[i], c.Data()))
+			vs = append(vs, w.variantOf(as[i], c.Data()))
 		}
 		ev["ok"], ev["vs"], ev["err"] = err == nil, vs, ""
 		if err != nil && !errors.Is(err, storage.ErrNotFound) {
@@ -307,13 +395,13 @@ func apply(w *world, s *store, op map[string]interface{}, ev kit.Ev, split bool)
 		}
 	case "has":
 		a := kit.Str(op, "a")
-		h, err := s.db.Has(ctxb, storage.ModeHasChunk, w.addr[a])
+		h, err := s.db.Has(ctxb, storage.ModeHasChunk, w.addrOf(a))
 		ev["a"], ev["has"], ev["err"] = a, h, errClass(err)
 	case "hasmulti":
 		as := kit.StrList(op, "as")
 		var addrs []boson.Address
 		for _, a := range as {
-			addrs = append(addrs, w.addr[a])
+			addrs = append(addrs, w.addrOf(a))
 		}
 		hs, err := s.db.HasMulti(ctxb, storage.ModeHasChunk, addrs...)
 		if hs == nil {
@@ -324,7 +412,7 @@ func apply(w *world, s *store, op map[string]interface{}, ev kit.Ev, split bool)
 		as := kit.StrList(op, "as")
 		var addrs []boson.Address
 		for _, a := range as {
-			addrs = append(addrs, w.addr[a])
+			addrs = append(addrs, w.addrOf(a))
 		}
 		err := s.db.Set(w.ctx(kit.Str(op, "root")), setMode(kit.Str(op, "mode")), addrs...)
 		ev["mode"], ev["root"], ev["as"] = kit.Str(op, "mode"), kit.Str(op, "root"), as
@@ -360,6 +448,10 @@ func main() {
 		w := newWorld(kit.Seed())
 		for _, sc := range scs {
 			crash := kit.Str(sc.Par, "mode") == "c14"
+			w.names = scenarioNames(sc)
+			for _, n := range w.names {
+				w.addrOf(n)
+			}
 			s, err := open(w, logger, nil, crash)
 			if err != nil {
 				return err
@@ -390,6 +482,9 @@ func main() {
 					return err
 				}
 				ev["st"] = st
+				if crash {
+					ev["writes"] = s.log.Len() - n0 // atomic storage writes (direct writes, batch commits) of the operation
+				}
 				if twin != nil {
 					tev := kit.Ev{}
 					if err := apply(w, twin, op, tev, true); err != nil {
